@@ -37,7 +37,8 @@ META = {
     'required_counters': ['judged_' + d for d in DERIVED] + [
         'judged_definition', 'judged_ctx_eq', 'judged_ctx_ne', 'judged_crc32', 'judged_agreement',
         'aliasing_sweeps', 'live_definitions_compared', 'followup_edits_that_changed_target',
-        'derivation_rejected_for_conflict', 'ctx_eq_true', 'ctx_eq_false', 'involutions_checked'],
+        'derivation_rejected_for_conflict', 'ctx_eq_true', 'ctx_eq_false', 'involutions_checked',
+        'crc32_with_encoding'],
     'shards': {'quick': 16, 'thorough': 16},
     'exhaustive': {'thorough': 'all 113 x 113 ordered pairs of definitions over {a,b}x{p,q} x all derivations'},
     'assumptions': ['comparison of a context with a non-context is out of scope',
@@ -415,6 +416,19 @@ def run_ctx(concepts, case, spec):
     want_fill = fractions.Fraction(sum(popcount(r) for r in sh.rows), sh.n * sh.m)
     if obs['fill_ratio'][0] != want_fill:
         COL.violation('driver', 'agreement:fill_ratio-differs-from-table', str(want_fill), str(obs['fill_ratio'][0]))
+    # crc32 with other encodings, after the default one was computed on the same objects
+    for enc in ('latin-1', 'utf-16', 'utf-8'):
+        try:
+            ''.join(case['objects'] + case['properties']).encode(enc)
+        except UnicodeEncodeError:
+            continue
+        a = call(ctx.crc32, enc)
+        b = call(d.crc32, encoding=enc)
+        c = call(ctx.crc32, encoding=enc)
+        COL.count('crc32_with_encoding')
+        if RAISED not in (a, b, c) and not (a == b == c):
+            COL.violation('driver', 'agreement:crc32-with-encoding-differs-between-context-and-definition',
+                          [enc, b], [a, c])
     # editing the definition must not change the context (and vice versa nothing to edit)
     call(d.__setitem__, (case['objects'][0], case['properties'][0]), not d[case['objects'][0], case['properties'][0]])
     if tuple(ctx.objects) != sh.objects or [tuple(r) for r in ctx.bools] != sh.triple()[2]:
